@@ -329,7 +329,7 @@ def _finish(c):
 
 
 def run_shard(ctx):
-    n = 22 if ctx.tier == "quick" else 300
+    n = 22 if ctx.tier == "quick" else 800
 
     def body(case):
         cl = set()
